@@ -8,7 +8,7 @@ import implobs
 from gens.programs import Opts, Gen
 from props.c15 import canon_obs
 
-THEOREMS = ['fully_supported_untouched', 'full_after_removal']
+THEOREMS = ['fully_supported_untouched', 'full_after_removal', 'coverage_dispatch_as_modelled']
 RULE = ('supported generated functions (incl. nested loops / branches) into which a multiset of 1-4 unsupported '
         'statements over fresh identifiers (calls, arrays, pointers, ternary, compound assignment, n-ary expressions, '
         'switch, goto, initialised / array / pointer declarations, non-counted for loops, division) is inserted at '
